@@ -27,6 +27,30 @@ def child_setup(env):
         objs["lk"] = lock.ParallelMailboxLock(objs["lf"], no)
         return True
 
+    # several terminals used by one process (kind C): one lock object per terminal, all on the shared lock file
+    def t_newlock(no):
+        objs["lk", no] = lock.ParallelMailboxLock(objs["lf"], no)
+        return True
+
+    def t_enter(no):
+        state["t", no] = loop.create_task(objs["lk", no].__aenter__())
+        return t_poll(no)
+
+    def t_poll(no):
+        env["pump"](6)
+        t = state["t", no]
+        if not t.done():
+            return "blocked"
+        t.result()
+        return "entered"
+
+    def t_send(no):
+        return objs["lk", no].next_counter()
+
+    def t_exit(no):
+        loop.run_until_complete(objs["lk", no].__aexit__(None, None, None))
+        return True
+
     def do_enter(slot=0):
         state[slot] = loop.create_task(objs["lk"].__aenter__())
         return do_poll(slot)
@@ -50,7 +74,8 @@ def child_setup(env):
         return list(os.pread(objs["lf"].fd, 1, no_off))
 
     return {"open": do_open, "newlock": do_newlock, "enter": do_enter, "poll": do_poll,
-            "send": do_send, "exit": do_exit, "peek": do_peek}
+            "send": do_send, "exit": do_exit, "peek": do_peek,
+            "t_newlock": t_newlock, "t_enter": t_enter, "t_poll": t_poll, "t_send": t_send, "t_exit": t_exit}
 
 
 class C15(Check):
@@ -74,6 +99,9 @@ class C15(Check):
             {"kind": "B", "n": 2, "window": True, "script": [(1, "enter"), (1, "send"), (1, "exit"), (0, "init"), (0, "enter"), (0, "send"), (0, "exit")]},
             {"kind": "B", "n": 2, "window": True, "script": [(1, "enter"), (1, "send"), (1, "send"), (1, "exit"), (0, "init"), (1, "enter"), (1, "send"), (1, "exit")]},
             {"kind": "B", "n": 2, "window": False, "script": [(0, "enter"), (1, "enter"), (0, "send"), (0, "exit"), (1, "poll"), (1, "send"), (1, "exit")]},
+            # P is inside an exchange with terminal 0, finishes one with terminal 1; Q then wants terminal 0
+            {"kind": "C", "n": 2, "script": [(0, "enter", 0), (0, "send", 0), (0, "enter", 1), (0, "send", 1), (0, "exit", 1), (1, "enter", 0), (1, "send", 0),
+                                            (0, "send", 0), (0, "exit", 0), (1, "poll", 0), (1, "send", 0), (1, "exit", 0)]},
             {"kind": "B", "n": 2, "slots": 2, "window": False,
              "script": [(0, "enter", 0), (0, "enter", 1), (1, "enter", 0), (0, "send", 0), (0, "exit", 0), (0, "poll", 1), (1, "poll", 0),
                         (0, "send", 1), (1, "send", 0), (0, "exit", 1), (1, "exit", 0)]},
@@ -117,6 +145,12 @@ class C15(Check):
                 p, sl = rng.randrange(n), rng.randrange(slots)
                 script.append((p, rng.choice(["enter", "poll", "poll", "send", "send", "exit"]), sl))
             out.append({"kind": "B", "n": n, "slots": slots, "window": False, "script": script})
+        # two processes, each using TWO terminals that share the lock file: an exchange with one terminal must not disturb the other
+        for _ in range(25 if self.tier == "quick" else 250):
+            script = []
+            for _ in range(rng.randint(10, 30)):
+                script.append((rng.randrange(2), rng.choice(["enter", "poll", "send", "send", "exit"]), rng.randrange(2)))
+            out.append({"kind": "C", "n": 2, "script": script})
         return out
 
     # ------------------------------------------------------------------ A
@@ -274,9 +308,75 @@ class C15(Check):
                 k.close()
             shutil.rmtree(tmp, ignore_errors=True)
 
+    TERMS = [1003, 1005]
+
+    def run_C(self, case):
+        tmp = tempfile.mkdtemp(prefix="verif_c15_")
+        path = tmp + "/run/mbx"
+        kids = [Child(child_setup) for _ in range(2)]
+        evs, trace, viol = {0: ["init"], 1: ["init"]}, {0: [], 1: []}, []
+        sst = {}
+        try:
+            for k in kids:
+                r = k.call("open", path, 1000, 1010)
+                if r[0] != "ok":
+                    return Err(7, f"open failed: {r}")
+                for no in self.TERMS:
+                    k.call("t_newlock", no)
+            def entered(p, t):
+                other = [q for q in range(2) if q != p and sst.get((q, t)) == "in"]
+                if other:
+                    viol.append(f"process {p} entered an exchange with terminal {t} while process {other[0]} was inside its own")
+                evs[t] += [("lock", p), ("read", p)]
+                sst[(p, t)] = "in"
+
+            def refresh(p, skip=None):
+                """a waiting task of process p may have got its lock while the child ran its event loop"""
+                for (q, t2), v in list(sst.items()):
+                    if q == p and v == "want" and t2 != skip:
+                        r2 = kids[p].call("t_poll", self.TERMS[t2])
+                        if r2[0] == "ok" and r2[1] == "entered":
+                            entered(p, t2)
+
+            for p, cmd, t in case["script"]:
+                no = self.TERMS[t]
+                st = sst.get((p, t), "idle")
+                if cmd in ("enter", "poll") and st in ("idle", "want"):
+                    r = kids[p].call("t_enter" if st == "idle" else "t_poll", no)
+                    if r[0] != "ok":
+                        return Err(5, f"participant {p} failed to take the mailbox lock of terminal {t}: {r[1:3]}")
+                    if r[1] == "entered":
+                        entered(p, t)
+                    else:
+                        if st == "idle":
+                            evs[t].append(("lockfail", p))
+                        sst[(p, t)] = "want"
+                    refresh(p, skip=t)
+                elif cmd == "send" and st == "in":
+                    r = kids[p].call("t_send", no)
+                    if r[0] != "ok":
+                        return Err(5, f"next_counter failed in participant {p}: {r[1:3]}")
+                    evs[t].append(("send", p))
+                    trace[t].append([p, r[1]])
+                    refresh(p)
+                elif cmd == "exit" and st == "in":
+                    r = kids[p].call("t_exit", no)
+                    if r[0] != "ok":
+                        return Err(5, f"release failed in participant {p}: {r[1:3]}")
+                    evs[t] += [("write", p), ("unlock", p)]
+                    sst[(p, t)] = "idle"
+                    refresh(p)
+            bytes_ = [kids[1].call("peek", no - 1000) for no in self.TERMS]
+            return {"evs": evs, "trace": trace, "viol": viol, "byte": [b[1] if b[0] == "ok" else None for b in bytes_],
+                    "st": {t: ["in" if sst.get((p, t)) == "in" else "idle" for p in range(2)] for t in (0, 1)}}
+        finally:
+            for k in kids:
+                k.close()
+            shutil.rmtree(tmp, ignore_errors=True)
+
     def run_impl(self, case):
         try:
-            o = self.run_A(case) if case["kind"] == "A" else self.run_B(case)
+            o = self.run_C(case) if case["kind"] == "C" else self.run_A(case) if case["kind"] == "A" else self.run_B(case)
         except asyncio.TimeoutError:
             o = Err(8, "tasks did not finish")
         except Exception as e:
@@ -292,6 +392,18 @@ class C15(Check):
         if case["kind"] == "A":
             names = {"acquire": "Acquire", "send": "Send", "release": "Release"}
             return "(runA " + clist([f"{names[k]} {cnat(u)}" for k, u in o["evs"]]) + ")"
+        if case["kind"] == "C":
+            def conv(l):
+                out = []
+                for e in l:
+                    if e == "init":
+                        out.append("BInit")
+                    elif e[0] == "lockfail":
+                        out.append(f"BLock {cnat(e[1])}")
+                    else:
+                        out.append({"lock": "BLock", "read": "BRead", "send": "BSend", "write": "BWrite", "unlock": "BUnlock"}[e[0]] + f" {cnat(e[1])}")
+                return clist(out)
+            return f"(VL [runB 2 {conv(o['evs'][0])}; runB 2 {conv(o['evs'][1])}])"
         evs = []
         for e in o["evs"]:
             if e == "init":
@@ -307,6 +419,15 @@ class C15(Check):
             return 0
         if case["kind"] == "A":
             return [o["log"], o["counter"] if o["counter"] is not None else self._next(o["log"])]
+        if case["kind"] == "C":
+            vals = []
+            for t in (0, 1):
+                tr = o["trace"][t]
+                holder = [p for p, s_ in enumerate(o["st"][t]) if s_ == "in"]
+                procs = [[2, (tr[-1][1] % 7 + 1 if tr else 0)] if s_ == "in" else 0 for s_ in o["st"][t]]
+                byte = o["byte"][t]
+                vals.append([tr, (byte[0] if byte else None), holder[0] if holder else None, procs])
+            return vals
         holder = [p for p, s in enumerate(o["st"]) if s == "in"]
         procs = []
         for p, s in enumerate(o["st"]):
@@ -345,6 +466,17 @@ class C15(Check):
                         return f"user {e[1]} released an exchange owned by {cur}"
                     cur = None
             sent = [e[2] for e in o["log"] if e[0] == 1]
+        elif case["kind"] == "C":
+            if o["viol"]:
+                return o["viol"][0] + f"; script {case['script']}"
+            for t in (0, 1):
+                prev = None
+                for _, c in o["trace"][t]:
+                    want = 0 if prev is None else prev % 7 + 1
+                    if c != want:
+                        return f"terminal {t}: mailbox counters {[x for _, x in o['trace'][t]]}: {c} follows {prev}, expected {want}; script {case['script']}"
+                    prev = c
+            return True
         else:
             sent = [c for _, c in o["trace"]]
         prev = None
@@ -389,6 +521,8 @@ class C15(Check):
     def nontrivial(self, case, o):
         if isinstance(o, Err):
             return False
+        if case["kind"] == "C":
+            return len(o["trace"][0]) + len(o["trace"][1]) >= 4
         return (len(o["log"]) if case["kind"] == "A" else len(o["trace"])) >= 4
 
     def search_cases(self):
@@ -401,10 +535,11 @@ class C15(Check):
     def rule(self):
         return ("A: 2-4 tasks in one event loop doing 1-3 exchanges of 1-3 messages each on one MailboxLock or one ParallelMailboxLock, random yields; "
                 "B: 2-3 real processes sharing one lock file, commands (enter/poll/send/exit, creator's late initialisation) interleaved by the harness, half of "
-                "the cases start inside the creation window; non-trivial = at least 4 log entries / messages")
+                "the cases start inside the creation window; C: two processes each using TWO terminals on the shared lock file (an exchange with one terminal running "
+                "while exchanges with the other begin and end); non-trivial = at least 4 log entries / messages")
 
     def distribution(self, cases, observed):
-        d = {"A": 0, "B": 0, "B_window": 0, "messages": 0, "blocked_enters": 0}
+        d = {"A": 0, "B": 0, "C": 0, "B_window": 0, "messages": 0, "blocked_enters": 0}
         for c, o in zip(cases, observed):
             d[c["kind"]] += 1
             d["B_window"] += c.get("window", False)
@@ -412,6 +547,9 @@ class C15(Check):
                 continue
             if c["kind"] == "A":
                 d["messages"] += sum(1 for e in o["log"] if e[0] == 1)
+            elif c["kind"] == "C":
+                d["messages"] += len(o["trace"][0]) + len(o["trace"][1])
+                d["blocked_enters"] += sum(1 for t in (0, 1) for e in o["evs"][t] if e != "init" and e[0] == "lockfail")
             else:
                 d["messages"] += len(o["trace"])
                 d["blocked_enters"] += sum(1 for e in o["evs"] if e != "init" and e[0] == "lockfail")
@@ -421,7 +559,7 @@ class C15(Check):
         return {k: v for k, v in case.items() if not k.startswith("_")}
 
     def case_from_json(self, w):
-        if w["kind"] == "B":
+        if w["kind"] in ("B", "C"):
             w["script"] = [tuple(x) for x in w["script"]]
         return w
 
